@@ -536,6 +536,183 @@ def rule_total(which, floor):
     return f
 
 
+def _shift_ub(an, fx, b, t, depth=0):
+    """an upper bound of the integer term t at block b, or None"""
+    if depth > 8 or not isinstance(t, tuple) or not t:
+        return None
+    if t[0] == "const" and isinstance(t[2], int):
+        return t[2]
+    if t[0] == "cast" and t[1] == "IntToInt":
+        return _shift_ub(an, fx, b, t[2], depth + 1)
+    if t[0] == "bin":
+        op, x, y = t[1], t[2], t[3]
+        if op == "BitAnd":
+            bs = [v for v in (_shift_ub(an, fx, b, x, depth + 1), _shift_ub(an, fx, b, y, depth + 1)) if v is not None]
+            return min(bs) if bs else None
+        if op == "Rem" and y[0] == "const" and isinstance(y[2], int) and y[2] > 0:
+            return y[2] - 1
+        if op == "Add":
+            a_, b_ = _shift_ub(an, fx, b, x, depth + 1), _shift_ub(an, fx, b, y, depth + 1)
+            return a_ + b_ if a_ is not None and b_ is not None else None
+        if op == "Sub":
+            return _shift_ub(an, fx, b, x, depth + 1)
+        if op in ("Shr", "Div") and y[0] == "const" and isinstance(y[2], int) and y[2] > 0:
+            a_ = _shift_ub(an, fx, b, x, depth + 1)
+            return None if a_ is None else (a_ >> y[2] if op == "Shr" else a_ // y[2])
+    if t[0] == "min":
+        bs = [v for v in (_shift_ub(an, fx, b, t[1], depth + 1), _shift_ub(an, fx, b, t[2], depth + 1)) if v is not None]
+        return min(bs) if bs else None
+    if t[0] == "call" and t[1].split("::")[-1] in ("trailing_zeros", "leading_zeros", "count_ones", "count_zeros") and t[3]:
+        ty = t[1].split("::")[-2]
+        width = {"u8": 8, "u16": 16, "u32": 32, "u64": 64, "usize": 64, "u128": 128, "i64": 64, "i32": 32, "isize": 64}.get(ty)
+        if width is None:
+            return None
+        w = t[3][0]
+        if t[1].endswith("trailing_zeros") or t[1].endswith("leading_zeros"):
+            zero = ("const", ty, 0)
+            if fx.holds(b, lambda rel: rel.has(mk_ne_(w, zero))):
+                return width - 1
+        return width
+    return None
+
+
+def mk_ne_(a, b):
+    from .facts import mk_ne
+    return mk_ne(a, b)
+
+
+def shift_obligations(crate, o, want):
+    """every shift by a non-constant amount (the overflow assertion `amount < width` of the checked build) has an amount
+    that is provably below the bit width: a mask `x & m`, a remainder, a bit count of a word known to be non-zero, sums of
+    those.  A shift by the full width panics in checked builds and leaves the word unchanged in unchecked ones."""
+    n = 0
+    for p in crate.fn_paths():
+        if not want(p):
+            continue
+        an = crate.an(p)
+        fx = None
+        for ev in an.events:
+            if ev["k"] != "assert" or ev.get("kind") != "overflow" or not isinstance(ev.get("detail"), dict) \
+                    or ev["detail"].get("op") not in ("Shl", "Shr"):
+                continue
+            amt = ev["detail"]["b"]
+            c = ev["cond"]
+            if amt[0] == "const" or not (c[0] == "bin" and c[1] == "Lt" and c[3][0] == "const" and isinstance(c[3][2], int)):
+                continue
+            W = c[3][2]
+            fx = fx or crate.fx(p)
+            n += 1
+            pretty = crate.prog.pretty[p]
+            ub = _shift_ub(an, fx, ev["b"], amt)
+            if ub is None:
+                if fx.holds(ev["b"], lambda rel: rel.lt(amt, c[3])):
+                    o.check(True, pretty, "shift-amount", "")
+                else:
+                    o.undecide(pretty, "shift-amount", "the bound of a shift amount is not of a form the rule evaluates", ev["span"])
+            else:
+                o.check(ub < W, pretty, "shift-amount", "a %d-bit word is shifted by an amount that can reach %d: the shift overflows "
+                        "(panic in checked builds, a no-op shift in unchecked ones)" % (W, ub), ev["span"])
+    return n
+
+
+INT_WIDTH = {"u8": 8, "u16": 16, "u32": 32, "u64": 64, "usize": 64, "u128": 128, "i8": 8, "i16": 16, "i32": 32, "i64": 64, "isize": 64,
+             "i128": 128}
+
+
+def _narrow_scope(prog, f, area):
+    """area: 'algo' (graaf::algo), 'gen' (graaf::gen and the generator impls of the representations), 'repr' (the rest of
+    graaf::repr and graaf::op)"""
+    root = prog.fns.get(f.get("root"), f)
+    path = root["path"]
+    is_gen = path.startswith("graaf::gen::") or str(root.get("impl_trait", "")).startswith("graaf::gen::")
+    if area == "algo":
+        return path.startswith("graaf::algo::")
+    if area == "gen":
+        return is_gen
+    return (path.startswith("graaf::repr::") or path.startswith("graaf::op::")) and not is_gen
+
+
+def rule_narrow(area):
+    def f(crate, prop, tier):
+        """NARROW: no integer conversion with `as` to a narrower type unless the value is provably representable (a masked /
+        reduced / bit-count value).  The pinned tree has none; vertex ids, distances, weights and counts are 64-bit, and a
+        truncated copy (a packed heap key, a u32 vertex id) silently aliases distinct values."""
+        o = Obl("NARROW")
+        prog = crate.prog
+        nfn = 0
+        for p in crate.fn_paths():
+            f_ = prog.fns[p]
+            if not _narrow_scope(prog, f_, area):
+                continue
+            nfn += 1
+            an = None
+            for bi, blk in enumerate(f_.get("blocks", [])):
+                for si, st in enumerate(blk.get("stmts", [])):
+                    rv = st.get("rv") or {}
+                    if rv.get("k") != "cast" or rv.get("kind") != "IntToInt":
+                        continue
+                    op = rv["op"]
+                    if op["k"] in ("copy", "move"):
+                        pl = op["place"]
+                        sty = f_["locals"][pl["local"]]["ty"].get("s") if not pl["proj"] else pl["proj"][-1].get("ty", {}).get("s")
+                    else:
+                        sty = op.get("ty", {}).get("s")
+                    tty = rv["ty"].get("s")
+                    ws, wt = INT_WIDTH.get(sty), INT_WIDTH.get(tty)
+                    if ws is None or wt is None or ws <= wt:
+                        continue
+                    an = an or crate.an(p)
+                    t = an.stmt_terms.get((bi, si))
+                    ub = None
+                    if t is not None and t[0] == "cast":
+                        ub = _shift_ub(an, crate.fx(p), bi, t[2])
+                    signed_t = tty.startswith("i")
+                    o.check(ub is not None and ub < (1 << (wt - (1 if signed_t else 0))), prog.pretty[p], "lossless-cast",
+                            "a %s value that is not known to fit is converted to %s with `as`: distinct values (vertex ids, distances, "
+                            "weights) become equal after truncation" % (sty, tty), st["span"])
+        o.instances = nfn
+        return o.report(floors={"functions scanned for narrowing casts": (nfn, 20)})
+    return f
+
+
+def rule_ops_writes(crate, prop, tier):
+    """OPS-WRITES: complement / converse / union / filter_vertices build their result through a literal, a generator, or the
+    checked mutators (add_arc asserts u != v and both endpoints < order).  A container method that writes straight into a
+    field of a local representation value bypasses those checks: a bulk write (extend / append) of arcs taken from another
+    digraph is reported (nothing relates their endpoints to the order of the value written to); a single insert is left
+    undecided.  The pinned tree has no such write."""
+    o = Obl("OPS-WRITES")
+    prog = crate.prog
+    OPS_TRAITS = ("graaf::op::complement::Complement", "graaf::op::converse::Converse", "graaf::op::union::Union",
+                  "graaf::op::filter_vertices::FilterVertices")
+    for p in crate.fn_paths():
+        f_ = prog.fns[p]
+        root = prog.fns.get(f_.get("root"), f_)
+        if root.get("impl_trait") not in OPS_TRAITS:
+            continue
+        if f_["kind"] != "Closure":
+            o.instances += 1
+        an = crate.an(p)
+        for ev in an.events:
+            if ev["k"] != "call" or ev["key"] not in INSERT_KEYS or not ev["args"]:
+                continue
+            a0 = ev["args"][0]
+            if not (a0[0] == "addr" and isinstance(a0[1], str) and a0[1].startswith("L") and "." in a0[1]):
+                continue
+            ri = an.region_info.get(a0[1].split(".")[0])
+            if not (ri and ri["ty"].get("k") == "adt" and ri["ty"].get("path") in REPR):
+                continue
+            if ri["ty"]["path"].endswith("AdjacencyMap"):
+                continue            # no order / range invariant: any id may be a vertex
+            op = INSERT_KEYS[ev["key"]]
+            if op in ("extend", "append"):
+                o.check(False, prog.pretty[p], "bulk-write", "arcs are written in bulk into `%s` of a local %s, bypassing add_arc: nothing "
+                        "relates their endpoints to the order of that value" % (a0[1].split(".", 1)[1], ri["ty"].get("name")), ev["span"])
+            else:
+                o.undecide(prog.pretty[p], "direct-write", "a field of a local representation value is written directly", ev["span"])
+    return o.report(floors={"operation impls": (o.instances, 14)})
+
+
 def rule_bits(crate, prop, tier):
     """BITS: every write into AdjacencyMatrix::blocks anywhere in the crate is a read-modify-write of one cell's bit:
     blocks[i >> 6] = old | (1 << (i & 63)), old ^ (..), old & !(..) with the same i; a whole-word write (generator
@@ -544,6 +721,7 @@ def rule_bits(crate, prop, tier):
     o = Obl("BITS")
     AM = "graaf::repr::adjacency_matrix::AdjacencyMatrix"
     n = 0
+    shift_obligations(crate, o, lambda p: p.startswith("graaf::repr::adjacency_matrix::"))
     for p in crate.fn_paths():
         an = crate.an(p)
         for ev in an.events:
@@ -817,6 +995,7 @@ def rule_bitset(crate, prop, tier):
     from .schema import load_parts
     o = Obl("BITSET")
     n = 0
+    shift_obligations(crate, o, lambda p: not p.startswith("graaf::repr::adjacency_matrix::"))
 
     def single_bits(t, out):
         if isinstance(t, tuple) and t:
@@ -829,6 +1008,9 @@ def rule_bitset(crate, prop, tier):
 
     def check(pretty, idx, valterm, span):
         nonlocal n
+        if idx is not None and idx[0] == "bin" and idx[1] == "Div" and idx[3][0] == "const" and isinstance(idx[3][2], int) \
+                and idx[3][2] > 1 and idx[3][2] & (idx[3][2] - 1) == 0:
+            idx = ("bin", "Shr", idx[2], ("const", "u32", idx[3][2].bit_length() - 1))
         if not (idx is not None and idx[0] == "bin" and idx[1] == "Shr" and idx[3][0] == "const" and isinstance(idx[3][2], int)):
             return
         x, k = idx[2], idx[3][2]
@@ -841,6 +1023,10 @@ def rule_bitset(crate, prop, tier):
                     n += 1
                     o.check(m[2] == (1 << k) - 1, pretty, "bit-index-width", "a bit set addresses word x >> %d but bit x & %d: elements "
                             "whose ids differ in a dropped bit share one bit (or the shift overflows)" % (k, m[2]), span)
+            if a[0] == "bin" and a[1] == "Rem" and a[2] == x and a[3][0] == "const" and isinstance(a[3][2], int):
+                n += 1
+                o.check(a[3][2] == (1 << k), pretty, "bit-index-width", "a bit set addresses word x >> %d but bit x %% %d: two elements of "
+                        "one word share a bit (or the shift overflows)" % (k, a[3][2]), span)
     for p in crate.fn_paths():
         an = crate.an(p)
         pretty = crate.prog.pretty[p]
